@@ -301,6 +301,13 @@ def rule_reset(check):
                 continue
             kinds += [classify(x) for x in conjuncts(c["e"])]
         conj = sorted(k or "?" for k in kinds) == ["auto-child", "root-now"]
+        if not conj and sorted(k or "?" for k in kinds) == ["root-now"]:
+            # a context type without an auto-reset flag: every child context resets, the root test alone decides
+            try:
+                ctx_fields = {x["name"] for v_ in prog.adt("visitor_with_context::Ctx")["variants"] for x in v_["fields"]}
+            except AnchorMissing:
+                ctx_fields = {"auto_reset"}
+            conj = "auto_reset" not in ctx_fields
         check.expect(ok and conj and order, R, R + "/reset_ctx", hir.loc(n), "reset_ctx only from WithCtx::drop under (restored ctx).root & (child ctx).auto_reset", "reset_ctx is called from %s; guard is %s (wanted: root of the restored context and auto_reset of the context being left); ctx restored first=%s" % (f.name, sorted(k or "?" for k in kinds), order))
     ch = prog.fn("Ctx::child")
     check.expect(_never_root(prog, ch), R, R + "/child-not-root", hir.loc(ch.rec), "Ctx::child has root: false", "a child context can be root")
